@@ -124,6 +124,18 @@ impl<R: Read> Reader<R> {
     pub fn where_am_i(&self) -> Location {
         self.location.clone()
     }
+
+    /// Where one value ends and the next one starts. The reader is always one byte ahead:
+    /// a white space read ahead still belongs to the previous value, any other byte
+    /// (for example in `[1][2]`) is already the first byte of the next one.
+    pub fn value_boundary(&self) -> Location {
+        let mut location = self.location.clone();
+        match self.current_byte {
+            None | Some(b' ' | b'\n' | b'\t' | b'\r') => {}
+            Some(_) => location.char_number -= 1,
+        }
+        location
+    }
 }
 
 impl Display for Location {
